@@ -178,7 +178,7 @@ theorem top_div8 (p : RBlock) (D : List (Nat × FnInfo)) (Γ' : Gam) (hy : ZTop8
 theorem program_div8 (ast : Block) (r : RBlock) (bc : Bytecode) (hc : compileProgram ast = .ok (r, bc)) (hin : inFragment8 r = true)
     (hdiv : ∀ F, Spec.evalB F r {} = .fuel) (n : Nat) :
     (∃ s', runSteps bc.code n (VM.start {} bc) = .budget s') ∨
-    (∃ n0 s', ∀ k, runSteps bc.code (n0 + k) (VM.start {} bc) = .error .index s') := by
+    HitsLimit bc := by
   obtain ⟨Γ', D, hy⟩ := inFragment8_sound r hin
   unfold compileProgram at hc
   cases hr : resolveProgram ast with
@@ -197,14 +197,14 @@ theorem program_div8 (ast : Block) (r : RBlock) (bc : Bytecode) (hc : compilePro
     nor a fault) — or stops at the machine's stack/frame limit, exactly as the forward theorem allows -/
 theorem eval_text8_div (cc : CharClass) (src : Text) (ast : Block) (r : RBlock) (bc : Bytecode) (hp : parse cc src = .ok ast)
     (hc : compileProgram ast = .ok (r, bc)) (hin : inFragment8 r = true) (hdiv : ∀ F, specText cc F src = .budget) (b : Nat) :
-    evalText cc b src = .budget ∨ (∃ n out, ∀ k, evalText cc (n + k) src = .error .index out) :=
+    evalText cc b src = .budget ∨ TextHitsLimit cc src :=
   evalText_of_noEnd hp hc (program_div8 ast r bc hc hin (fun F => specText_budget hp (resolve_of_compile hc) (hdiv F)) b)
 
 /-- (T4, stage 8) THE CONVERSE: what `eval` answers within some budget, other than by stopping at the stack/frame limit, is
     what the text denotes (or the semantics leaves the behaviour unspecified) -/
 theorem eval_text8_converse (cc : CharClass) (src : Text) (ast : Block) (r : RBlock) (bc : Bytecode) (hp : parse cc src = .ok ast)
     (hc : compileProgram ast = .ok (r, bc)) (hin : inFragment8 r = true) (b : Nat)
-    (hne : evalText cc b src ≠ .budget) (hnl : ¬ ∃ n out, ∀ k, evalText cc (n + k) src = .error .index out) :
+    (hne : evalText cc b src ≠ .budget) (hnl : ¬ TextHitsLimit cc src) :
     ∃ F, specText cc F src = evalText cc b src ∨ specText cc F src = .unspec :=
   converse_of cc src (eval_text8 cc src ast r bc hp hc hin) (eval_text8_div cc src ast r bc hp hc hin) b hne hnl
 
